@@ -275,6 +275,12 @@ def check(prop, tier, seed):
         return multi_check(prop, tier, seed)
     if prop == "C18":
         return c18_check(prop, tier, seed)
+    if prop == "C17":
+        # Box<[T]> is also produced by the Vec conversions and collect_in: the vec engine's reports count
+        table = dict(B.BOX_MISMATCH_PROPS)
+        table.update(B.VEC_MISMATCH_PROPS)
+        return engine_check(prop, tier, seed, B.multi_run([B.box_run, B.vec_run]), table,
+                            BOX_ASSUMPTIONS + VEC_ASSUMPTIONS, "box_driver", "box_check")
     if prop in B.ARENA_PROPS:
         return arena_check(prop, tier, seed)
     if prop in B.VEC_PROPS:
